@@ -372,7 +372,9 @@ func (d *driver) doOpen() {
 		}
 		if err == nil {
 			d.violate("C15:Open-nil-while-underlying-Open-fails", "Open returned nil although the underlying Open failed", nil)
+			return
 		}
+		d.lateClosed("after-failed-Open")
 	default:
 		if err != nil {
 			d.violate("C15:Open-failed-on-closed-transport:"+d.ctx(), "Open on a closed transport whose underlying Open succeeds returned "+errText(err), nil)
@@ -616,6 +618,36 @@ func (d *driver) closeProtocolFrom(kind string, faultMark int) {
 		if ok && r.(bool) {
 			d.violate("C15:IsOpen-true-after-close:"+kind, "the cause was published and no reopen is due, but IsOpen still reports true", nil)
 		}
+		d.lateClosed("after-close")
+	}
+}
+
+// lateClosed: the transport is closed (a session has ended and none is
+// open).  A client that fetches Closed() only now must still learn that: the
+// channel it gets must be ready - the cause still buffered, or the channel
+// closed - and must not hand out a second cause once the driver has taken the
+// one of the last session.
+func (d *driver) lateClosed(when string) {
+	if d.status != stOK || d.m.Open || d.sessions == 0 || d.stash != nil {
+		return
+	}
+	r, ok := d.call("Closed", func() interface{} { return d.tr.Closed() })
+	if !ok {
+		return
+	}
+	d.h.run.Add("late_Closed_fetches", 1)
+	ch, _ := r.(<-chan error)
+	if ch == nil {
+		d.violate("C15:late-Closed-nil:"+when, "Closed() fetched on a closed transport that has had a session returns nil", nil)
+		return
+	}
+	select {
+	case v, ok := <-ch:
+		if ok && ch == d.ch {
+			d.violate("C15:more-than-one-close-cause", "the Closed() channel of the ended session yields another value when fetched late: "+errText(v), nil)
+		}
+	default:
+		d.violate("C15:late-Closed-never-fires:"+when, "the transport is closed (the last session's cause was published) but a Closed() channel fetched now is neither closed nor holds a cause: a late watcher never learns of the close", nil)
 	}
 }
 
@@ -711,6 +743,13 @@ func (d *driver) monitorProtocol(cause error, exp expect) {
 			return
 		}
 		last = e.OpenCalls
+		if e.LateSampled {
+			d.h.run.Add("late_Closed_fetches", 1)
+			if !e.LateReady {
+				d.violate("C15:late-Closed-never-fires:during-monitor-backoff", fmt.Sprintf("after failed reopen attempt %d the transport is closed, but a Closed() channel fetched at that moment is neither closed nor holds a cause", i), nil)
+				return
+			}
+		}
 		if e.Reopen && i >= p.Max {
 			d.violate("C15:more-than-MaxReopenAttempts", fmt.Sprintf("after %d failed reopen attempts the monitor decided to try again; MaxReopenAttempts is %d", i, p.Max), nil)
 			return
